@@ -13,6 +13,8 @@ GENERATORS = [
     ("gen_styles", "generate_acronyms", "GenAcronyms.v"),
     ("gen_lock", "generate", "GenLock.v"),
     ("gen_walker", "generate", "GenWalker.v"),
+    ("gen_cli", "generate", "GenCli.v"),
+    ("gen_wrappers", "generate", "GenWrappers.v"),
 ]
 
 
